@@ -526,6 +526,26 @@ def _add_other_section_contents(
                 sym.at_end = True
                 sym.referent = sect.blocks[-2]
 
+        # The same goes for what the tables say about the last block: the
+        # directives recorded on it move to the end of the previous block
+        # and nothing else may keep mentioning it.
+        dropped_block = sect.blocks[-1]
+        cfi_table = _auxdata_offsetmap.cfi_directives.get(module)
+        if cfi_table and dropped_block in cfi_table:
+            displacement_map = cfi_table.pop(dropped_block)
+            directives = [
+                directive
+                for _, at_offset in sorted(displacement_map.items())
+                for directive in at_offset
+            ]
+            if len(sect.blocks) > 1 and directives:
+                prev_block = sect.blocks[-2]
+                cfi_table.setdefault(prev_block, {}).setdefault(
+                    prev_block.size, []
+                ).extend(directives)
+        sect.alignment.pop(dropped_block, None)
+        sect.block_types.pop(dropped_block, None)
+
         del sect.blocks[-1]
 
     cache.block_ordering[gtirb_sect].add_detached_blocks(sect.blocks)
